@@ -270,18 +270,29 @@ def work_scanner(task):
     return stats
 
 
+def _unbalanced(dest):
+    depth, j = 0, 0
+    while j < len(dest):
+        if dest[j] == '\\' and j + 1 < len(dest) and not dest[j + 1].isalnum() and not dest[j + 1].isspace():
+            j += 2
+            continue
+        depth += {'(': 1, ')': -1}.get(dest[j], 0)
+        if depth < 0:
+            return True
+        j += 1
+    return depth != 0
+
+
 def classify_scanner(s, got, want):
     """Root-cause attribution (heuristic; the verdict does not depend on it)."""
     import re
-    if re.search(r'(^|\n) {0,3}\)( |\n|$)', s):
-        return 'list-marker-without-digits'          # ")" alone taken for an (empty) list item
     if got and not want or len(got) > len(want):
-        if any(v[0].count(')') and v[0].replace('\\(', '').replace('\\)', '').find(')') <
-               v[0].replace('\\(', '').replace('\\)', '').find('(') + (10 ** 6 if '(' not in v[0] else 0)
-               for v in got.values()):
+        if any(_unbalanced(raw) for raw in re.findall(r'\]:[ \n]*([^ \n<][^ \n]*)', s)):
             return 'destination-with-unbalanced-parentheses-accepted'
-        if re.search(r'\n {0,3}>', s):
+        if re.search(r'\[[^\]]*\n {0,3}>', s) or re.search(r'\]:[ ]*\n {0,3}>', s):
             return 'definition-read-across-line-that-starts-a-block-quote'
+        if re.search(r'(^|\n) {0,3}[.)]( |\n|$)', s):
+            return 'list-marker-without-digits'          # ")" alone taken for an (empty) list item
         if any('(' in v[1] for v in got.values()):
             return 'paren-title-with-unescaped-paren-accepted'
         return 'non-definition-accepted'
